@@ -392,8 +392,14 @@ SHAPES = [
     ('positional_tuple', lambda f, a, b: f.connect(a, (a, b)), ValueError),
     ('twice', lambda f, a, b: f.connect(a).connect(b), 'EdzedInvalidState'),
     ('twice_kw', lambda f, a, b: f.connect(x=a).connect(y=b), 'EdzedInvalidState'),
-    ('ok_group_and_names', lambda f, a, b: f.connect(a, b, x=a, g=[a, b], e=[]), None),
-    ('ok_string_is_a_name', lambda f, a, b: f.connect('a', x='b'), None),
+    ('ok_group_and_names', lambda f, a, b: f.connect(a, b, x=a, g=[a, b], e=[]),
+     {'_': ['a', 'b'], 'x': 'a', 'g': ['a', 'b'], 'e': []}),
+    ('ok_string_is_a_name', lambda f, a, b: f.connect('a', x='b'), {'_': ['a'], 'x': 'b'}),
+    # every kind of sequence is a group: tuples, ranges of constants, iterators and generators
+    ('ok_tuple_group', lambda f, a, b: f.connect(g=(a, b)), {'g': ['a', 'b']}),
+    ('ok_iterator_group', lambda f, a, b: f.connect(g=iter([a, b])), {'g': ['a', 'b']}),
+    ('ok_generator_group', lambda f, a, b: f.connect(a, g=(x for x in (b, a, b))), {'_': ['a'], 'g': ['b', 'a', 'b']}),
+    ('ok_single_block_by_kw', lambda f, a, b: f.connect(x=b), {'x': 'b'}),
 ]
 
 
@@ -418,17 +424,15 @@ def check_connect_shapes(run, only=None):
             edzed.reset_circuit()
         run.add_case(dict(connect_shape=name), True)
         run.count('connect_shape')
-        if expect is None:
-            want = ({'_': ['a', 'b'], 'x': 'a', 'g': ['a', 'b'], 'e': []} if name == 'ok_group_and_names'
-                    else {'_': ['a'], 'x': 'b'})
-            ok = obs['raised'] is None and obs['inputs'] == want
+        if isinstance(expect, dict):
+            ok = obs['raised'] is None and obs['inputs'] == expect
         else:
             ok = obs['raised'] == (expect if isinstance(expect, str) else expect.__name__)
         run.add_obligation(ok)
         if not ok:
             run.violation('monitor', dict(case=dict(connect_shape=name), observed=obs),
                           f"connect() call '{name}': expected "
-                          f"{'acceptance' if expect is None else getattr(expect, '__name__', expect)}, observed "
+                          f"{'acceptance with inputs ' + str(expect) if isinstance(expect, dict) else getattr(expect, '__name__', expect)}, observed "
                           f"exception {obs['raised']} and stored inputs {obs['inputs']}",
                           clause='connect_shape:' + name, concrete=True)
 
